@@ -173,6 +173,25 @@ def extract_templates():
     return out
 
 
+def extract_tostring_variant():
+    """does the {inconclusive:…} loop of ErrorMessage::toString guard against an unterminated marker (pos2 == npos)?"""
+    src = open(os.path.join(core.REPO, "lib/errorlogger.cpp"), encoding="latin-1").read()
+    m = re.search(r'std::string::size_type pos1 = result\.find\("\{inconclusive:"\);\s*while \(pos1 != std::string::npos\) \{(.*?)\n    \}\n', src, re.S)
+    if not m:
+        raise Unrecognised("toString: {inconclusive: loop")
+    body = [l.strip() for l in m.group(1).split("\n") if l.strip()]
+    plain = ["const std::string::size_type pos2 = result.find('}', pos1+1);",
+             "const std::string replaceFrom = result.substr(pos1,pos2-pos1+1);",
+             "const std::string replaceWith = (certainty == Certainty::inconclusive) ? result.substr(pos1+14, pos2-pos1-14) : std::string();",
+             "findAndReplace(result, replaceFrom, replaceWith);",
+             'pos1 = result.find("{inconclusive:", pos1);']
+    if body == plain:
+        return False
+    if body == plain[:1] + ["if (pos2 == std::string::npos)", "break;"] + plain[1:]:
+        return True
+    raise Unrecognised("toString: {inconclusive: loop body %r" % body)
+
+
 def extract_critical():
     src = open(os.path.join(core.REPO, "lib/errorlogger.cpp"), encoding="latin-1").read()
     m = re.search(r"const std::set<std::string> ErrorLogger::mCriticalErrorIds\{(.*?)\};", src, re.S)
@@ -253,7 +272,8 @@ def gen_texts():
            "-- severity values: %s" % rngel["error"][3]["severity"]["values"],
            "def severityValues : List (List Char) := [" + ", ".join(lean_chars(v) for v in rngel["error"][3]["severity"]["values"]) + "]",
            "", "end Cppcheck.Gen.RngAttrs", ""]
-    return {GEN_ENT: "\n".join(ent), GEN_TPL: "\n".join(tp), GEN_RNG: "\n".join(rg)}, dict(entities=ents, range=rng, restricted=restricted, templates=tpls, rng=rngel)
+    return {GEN_ENT: "\n".join(ent), GEN_TPL: "\n".join(tp), GEN_RNG: "\n".join(rg)}, dict(entities=ents, range=rng, restricted=restricted, templates=tpls, rng=rngel,
+                                                                                              brk=extract_tostring_variant())
 
 
 def translate(ctx):
@@ -345,6 +365,7 @@ def canon_xerr(x):
 
 
 RNG = {}
+BRK = [0]      # 1 when the working tree's toString has the `pos2 == npos` guard (translator)
 NCNAME = re.compile(r"^[A-Za-z_][A-Za-z0-9_.\-]*$")
 
 
@@ -835,6 +856,20 @@ def check_sarif_case(res, fs, doc, where):
     return ok
 
 
+def check_hang(ctx, res, exe, op, case, findings):
+    """an op the model predicts not to return: give the real code 3 s"""
+    try:
+        r = subprocess.run([exe], input=(op + "\n").encode(), stdout=subprocess.PIPE, stderr=subprocess.PIPE, timeout=3)
+        res.oblig("correspondence:C3:toString-no-return", False, "correspondence", "the model predicts that toString does not return, the real code printed %r for op %s" % (r.stdout[:200], op[:300]))
+        return False
+    except subprocess.TimeoutExpired:
+        (i, vb, tf, tl, origin) = case
+        res.violation("ErrorMessage::toString does not return for the template %r (unterminated {inconclusive: at offset 0 once the earlier passes are done)" % tf,
+                      dict(kind="hang", template=tf.hex(), location=tl.hex(), verbose=vb, finding=finding_json(findings[i]) if findings else None),
+                      concrete=True, key="template-unterminated-inconclusive-hang")
+        return True
+
+
 def corpus_cases():
     p = os.path.join(core.VERIF, "corpus", "C26", "cases.json")
     return json.load(open(p)) if os.path.exists(p) else []
@@ -862,6 +897,8 @@ def run(ctx, res):
         res.oblig("T:translators", False, "translation", "unrecognised shape: %s" % ex)
     if info:
         RNG.clear(); RNG.update(info["rng"])
+        BRK[0] = 1 if info["brk"] else 0
+        res.oblig("T5:toString-inconclusive-loop-shape", True, "translation", "guard against unterminated marker: %s" % info["brk"])
     mark("translate")
     core.prove(ctx, res, MODULES, THEOREMS)
     mark("prove")
@@ -1005,7 +1042,16 @@ def run(ctx, res):
         for _ in range(3 if thorough else 2):
             tf, tl, origin = rng.choice(final_tpls)
             cases.append((i, rng.randrange(2), tf, tl, origin))
-    ops = ["str %d %s %s %s" % (vb, core.hx(tf), core.hx(tl), finding_wire(findings[i])) for (i, vb, tf, tl, origin) in cases]
+    ops = ["str %d %d %s %s %s" % (BRK[0], vb, core.hx(tf), core.hx(tl), finding_wire(findings[i])) for (i, vb, tf, tl, origin) in cases]
+    # the model says where the real toString would not return (F26f): those ops never reach the harness stream
+    rc, pre, err = core.run_lines(drv, [], ops, timeout=900)
+    hang = [k for k in range(len(ops)) if k < len(pre) and pre[k] == "hang"]
+    res.count("text:model-predicts-no-return", len(hang))
+    for k in hang[:2]:
+        check_hang(ctx, res, exe, ops[k], cases[k], findings)
+    live = [k for k in range(len(ops)) if k not in set(hang)]
+    ops = [ops[k] for k in live]
+    cases = [cases[k] for k in live]
     impl, model = run_pair(ctx, exe, drv, ops)
     keep2 = [k for k in range(len(ops)) if impl[k] != "premise"]
     core.correspond(ctx, res, "C3:toString", [ops[k] for k in keep2], [impl[k] for k in keep2], [model[k] for k in keep2], nontrivial=lambda op, out: True)
@@ -1114,14 +1160,14 @@ def cli_case(ctx, res, case):
     hdr, ftr = [core.unhx(x) for x in so[2].split(" ")]
     version = so[3]
     # model: which findings reach the writer
-    op = "std 0 %s %s %d%s" % (core.hx(tf), core.hx(tl), len(fs), "".join(" " + finding_wire(f) for f in fs))
+    op = "std %d 0 %s %s %d%s" % (BRK[0], core.hx(tf), core.hx(tl), len(fs), "".join(" " + finding_wire(f) for f in fs))
     rcm, mo, _ = core.run_lines(drv, [], [op])
     kept_idx = [int(x) for x in mo[0].split("|")[0].split()]
     kept = [fs[i] for i in kept_idx]
     fails = False
     where = "cli:%s:%s" % (case.get("name", "?"), mode)
     if mode == "text":
-        ops = ["str 0 %s %s %s" % (core.hx(tf), core.hx(tl), finding_wire(f)) for f in kept]
+        ops = ["str %d 0 %s %s %s" % (BRK[0], core.hx(tf), core.hx(tl), finding_wire(f)) for f in kept]
         io = run_lines_cwd(exe, ops, d) if ops else []      # in the scenario directory: {code} reads the same files
         expect = b"".join(core.unhx(x) + b"\n" for x in io)
         res.oblig("C5:%s" % where, err == expect, "correspondence", "" if err == expect else "binary printed %r, StdLogger model + toString give %r" % (err[:400], expect[:400]))
@@ -1266,10 +1312,20 @@ def replay_case(ctx, res, drv, exe, rp):
     if kind == "text":
         f = finding_unjson(rp["finding"])
         tf, tl, vb = bytes.fromhex(rp["template"]), bytes.fromhex(rp.get("location", "")), rp.get("verbose", 0)
-        ops = ["str %d %s %s %s" % (vb, core.hx(tf), core.hx(tl), finding_wire(f))]
+        ops = ["str %d %d %s %s %s" % (BRK[0], vb, core.hx(tf), core.hx(tl), finding_wire(f))]
         impl, model = run_pair(ctx, exe, drv, ops)
         core.correspond(ctx, res, "corpus:toString:" + rp.get("name", ""), ops, impl, model)
         return check_text_case(res, f, vb, tf, tl, core.unhx(impl[0]), "corpus") is False
+    if kind == "hang":
+        f = finding_unjson(rp["finding"])
+        tf, tl, vb = bytes.fromhex(rp["template"]), bytes.fromhex(rp.get("location", "")), rp.get("verbose", 0)
+        op = "str %d %d %s %s %s" % (BRK[0], vb, core.hx(tf), core.hx(tl), finding_wire(f))
+        rc, mo, _ = core.run_lines(drv, [], [op])
+        if mo[0] == "hang":
+            return check_hang(ctx, res, exe, op, (0, vb, tf, tl, "corpus"), [f])
+        impl, model = run_pair(ctx, exe, drv, [op])
+        core.correspond(ctx, res, "corpus:toString:" + rp.get("name", ""), [op], impl, model)
+        return False
     if kind == "sarif":
         fs = [finding_unjson(x) for x in rp["findings"]]
         rc, vout, err = core.run_lines(exe, [], ["version"])
@@ -1287,6 +1343,7 @@ def replay(ctx, res, rp):
     try:
         info = translate(ctx)
         RNG.clear(); RNG.update(info["rng"])
+        BRK[0] = 1 if info["brk"] else 0
         CRITICAL.update(extract_critical())
     except Unrecognised:
         pass
